@@ -354,6 +354,9 @@ def tcp_reader():
                 w.check(err is script["first_error"], "connection_lost did not carry the first error")
             elif not exceptional:
                 w.check(err is None, "connection_lost carried an error after an orderly stop")
+                w.check(script["iter"] >= steps,
+                        "the reader gave the connection up without an error although nobody asked "
+                        "it to stop (a close by the peer must end in a loss that is re-dialled)")
             w.check(len(reconnects) == (1 if err is not None else 0),
                     "reconnect attempts do not match the loss (error => one attempt)")
             w.check(t.protocol is None and t.alive is False, "reader not shut down after the loss")
